@@ -88,6 +88,7 @@ func runC05(c *Ctx) {
 	c05WriteRegion(c, m)
 	c05Wrap(c, m)
 	c05HdrLen(c, m)
+	c05Mutex(c, m, fns)
 	if c.Tier == "thorough" && c.goos == "linux" && c.arch == "amd64" {
 		c05BCE(c, m, "C05.bce-crosscheck", []string{"internal/counter", "internal/upload", "internal/telemetry", "internal/mmap", "internal/config", "internal/configstore", "counter", "."}, fns)
 	}
@@ -613,4 +614,52 @@ func c05HdrLen(c *Ctx, m *Module) {
 		}
 	}
 	r.Check("C05.hdrlen-bounded", "stores to hdrLen enumerated", "-", n >= 2, fmt.Sprintf("%d", n))
+}
+
+// c05Mutex: every mutex acquired on a host-facing path is released on every path to a return
+// (a leaked lock makes the next caller wait for ever).
+func c05Mutex(c *Ctx, m *Module, fns []*ssa.Function) {
+	r := c.R
+	n := 0
+	for _, f := range fns {
+		for _, cs := range callsIn(f, "(*sync.Mutex).Lock", "(*sync.RWMutex).Lock", "(*sync.RWMutex).RLock") {
+			if _, isDefer := cs.(*ssa.Defer); isDefer {
+				continue
+			}
+			n++
+			mu := describe(cs.Common().Args[0])
+			unlockName := strings.Replace(strings.Replace(calleeName(cs.Common()), ".Lock", ".Unlock", 1), ".RLock", ".RUnlock", 1)
+			isUnlock := func(in ssa.Instruction) bool {
+				cc := callOf(in)
+				return cc != nil && calleeName(cc) == unlockName && describe(cc.Args[0]) == mu
+			}
+			// a deferred unlock registered after the lock with no exit in between covers everything
+			deferred := false
+			for _, in := range instrsOf(f) {
+				if d, ok := in.(*ssa.Defer); ok && isUnlock(d) && precedes(cs, d) {
+					if reachesWithout(cs, isReturn, func(x ssa.Instruction) bool { return x == ssa.Instruction(d) }) == nil {
+						deferred = true
+					}
+				}
+			}
+			ok := deferred
+			where := ""
+			if !deferred {
+				w := reachesWithout(cs, func(in ssa.Instruction) bool {
+					if isReturn(in) {
+						return true
+					}
+					_, isPanic := in.(*ssa.Panic)
+					return isPanic
+				}, isUnlock)
+				ok = w == nil
+				if w != nil {
+					where = m.Pos(w.Pos())
+				}
+			}
+			r.Check("C05.mutex-pairing", fname(f)+"/"+strings.TrimPrefix(mu, "&"), m.Pos(cs.Pos()), ok,
+				"a mutex locked here must be unlocked on every path to an exit (deferred right away, or explicitly on each path); exit reached with the lock held at "+where)
+		}
+	}
+	r.Check("C05.mutex-pairing", "lock sites enumerated", "-", n >= 4, fmt.Sprintf("%d lock acquisitions on host-facing paths", n))
 }
